@@ -315,3 +315,63 @@ func VerifC02Read() {
 	}
 	nd.Reach("end")
 }
+
+// VerifC02Churn: the contents are reached through a history that is more than PutItem - after the n loaded
+// items (one partition, symbolic sort keys and index sort keys), k further operations (DeleteItem of a stored
+// or of an absent key, UpdateItem upsert, overwriting PutItem that moves the item in the index) - and are
+// then read in the broad ways: Scan and Query in both directions, on the table and through the index. Every
+// read must return exactly the model's rows in order.
+func VerifC02Churn() {
+	n, k := nd.Param("n", 2), nd.Param("k", 1)
+	c := vClient(true)
+	nd.Assert(AddIndex(vCtx, c, vTbl, vIdx, "g", "h") == nil, "setup-addindex")
+	m := &vModel{withRange: true}
+	for i := 0; i < n; i++ {
+		nm := "k" + string(rune('0'+i))
+		key := vKey{p: "k", s: nd.StringN(nm+".s", 1)}
+		attrs := map[string]string{}
+		if nd.Choice(nm+".indexed", 2) == 1 {
+			attrs["g"], attrs["h"] = "k", nd.StringN(nm+".h", 1)
+		}
+		nd.Assert(vPut(c, m.full(key, attrs)) == nil, "setup-put")
+		m.put(key, attrs)
+	}
+	for step := 0; step < k; step++ {
+		nm := "c" + string(rune('0'+step))
+		key := vKey{p: "k", s: nd.StringN(nm+".s", 1)}
+		_, existed := m.get(key)
+		switch nd.Choice(nm+".op", 3) {
+		case 0:
+			_, err := c.DeleteItem(vCtx, &dynamodb.DeleteItemInput{TableName: aws.String(vTbl), Key: key.item(true)})
+			nd.Assert(err == nil, "C02-churn-delete-noerr")
+			if !existed {
+				nd.Reach("delete-absent")
+			}
+			m.del(key)
+		case 1:
+			h := nd.StringN(nm+".h", 1)
+			_, err := c.UpdateItem(vCtx, &dynamodb.UpdateItemInput{TableName: aws.String(vTbl), Key: key.item(true),
+				UpdateExpression: aws.String("SET g = :g, h = :h"), ExpressionAttributeValues: vItem{":g": vS("k"), ":h": vS(h)}})
+			nd.Assert(err == nil, "C02-churn-update-noerr")
+			m.put(key, map[string]string{"g": "k", "h": h})
+		case 2:
+			nd.Assert(vPut(c, m.full(key, map[string]string{})) == nil, "C02-churn-put-noerr")
+			m.put(key, map[string]string{})
+		}
+	}
+	reads := []vRead{
+		{scan: true, forward: true}, {scan: true, index: true, forward: true},
+		{hashVal: "k", forward: true}, {hashVal: "k", forward: false},
+		{index: true, hashVal: "k", forward: true}, {index: true, hashVal: "k", forward: false},
+	}
+	for i, r := range reads {
+		items, count, last, err := r.run(c, 0, nil)
+		id := "C02-churn-read" + string(rune('0'+i))
+		nd.Assert(err == nil && len(last) == 0, id+"-noerr")
+		if err == nil {
+			vC02Exact(r, m, items, count, id)
+		}
+	}
+	vInvariant(c, "C02-churn")
+	nd.Reach("end")
+}
